@@ -38,6 +38,7 @@ type absCert struct {
 	DNS       []string `json:"dns"`
 	IP        []string `json:"ip"`
 	Crit      bool     `json:"crit"`
+	Ski       string   `json:"ski"`
 }
 
 type pkixCase struct {
@@ -94,6 +95,12 @@ func materialise(a absCert, issuerKeyName string) (*x509.Certificate, error) {
 		SubjectKeyId:       skid(a.Key),
 		DNSNames:           a.DNS,
 	}
+	switch a.Ski { // children always name skid(key of the issuer) as authority key identifier
+	case "none":
+		t.SubjectKeyId = nil
+	case "other":
+		t.SubjectKeyId = skid("reissued:" + a.Key)
+	}
 	for _, ip := range a.IP {
 		t.IPAddresses = append(t.IPAddresses, net.ParseIP(ip))
 	}
@@ -125,6 +132,8 @@ func materialise(a absCert, issuerKeyName string) (*x509.Certificate, error) {
 			t.ExtKeyUsage = append(t.ExtKeyUsage, x509.ExtKeyUsageClientAuth)
 		case "any":
 			t.ExtKeyUsage = append(t.ExtKeyUsage, x509.ExtKeyUsageAny)
+		case "unknown":
+			t.UnknownExtKeyUsage = append(t.UnknownExtKeyUsage, asn1.ObjectIdentifier{1, 2, 3, 4, 5, 77})
 		}
 	}
 	if a.Crit {
